@@ -548,6 +548,81 @@ Definition list_sources (m : list entry) (t : N) : list N :=
 Definition list_targets (m : list entry) (s : N) : list entry :=
   filter (fun e => N.eqb (entry_source e) s) m.
 
+(** * The substitution as the property words it (specification side; compared with the modelled
+      code in Proofs, and used by the instance checker [chk_flat_spec]) *)
+
+(** [map_instr]: apply [fq] to every qubit position, [fe] to every expression position, [fm] to
+    every memory-reference position and [fp] to the text of a LOAD-MEMORY pragma. *)
+Definition map_operand (fm : memref -> memref) (o : operand) : operand :=
+  match o with ORef m => ORef (fm m) | OInt _ => o end.
+
+Definition map_instr (fq : qubit -> qubit) (fe : expr -> expr) (fm : memref -> memref)
+           (fp : option pdata -> option pdata) (i : instr) : instr :=
+  match i with
+  | IGate nm ps qs => IGate nm (map fe ps) (map fq qs)
+  | IMeasure mn q t => IMeasure mn (fq q) (option_map fm t)
+  | IReset q => IReset (option_map fq q)
+  | IFence qs => IFence (map fq qs)
+  | IDelay qs fs d => IDelay (map fq qs) fs (fe d)
+  | IPulse b f w => IPulse b (fmap_q fq f) (wmap_e fe w)
+  | ICapture b f m w => ICapture b (fmap_q fq f) (fm m) (wmap_e fe w)
+  | IRawCapture b f d m => IRawCapture b (fmap_q fq f) (fe d) (fm m)
+  | IFrameSet k f e => IFrameSet k (fmap_q fq f) (fe e)
+  | ISwapPhases f g => ISwapPhases (fmap_q fq f) (fmap_q fq g)
+  | IMove d s => IMove (fm d) (map_operand fm s)
+  | ILoad d s o => ILoad (fm d) s (fm o)
+  | IDeclare _ _ _ => i
+  | IPragma nm args data => IPragma nm args (if N.eqb nm load_memory then fp data else data)
+  | IOther _ => i
+  end.
+
+Fixpoint emap_m (fm : memref -> memref) (e : expr) : expr :=
+  match e with
+  | EAddr m => EAddr (fm m)
+  | ENeg x => ENeg (emap_m fm x)
+  | EBin op l r => EBin op (emap_m fm l) (emap_m fm r)
+  | EFun f x => EFun f (emap_m fm x)
+  | _ => e
+  end.
+
+Definition spec_gate (c : gcal) (ps : list expr) (qs : list qubit) : list instr :=
+  map (map_instr (qsub (qubit_bindings (gc_qubits c) qs)) (esub (param_bindings (gc_params c) ps))
+                 (fun m => m) (fun d => d))
+      (gc_body c).
+
+Definition retarget_memref (formal : option N) (t : option memref) (m : memref) : memref :=
+  match formal, t with
+  | Some f, Some tm => if N.eqb (fst m) f then tm else m
+  | _, _ => m
+  end.
+
+Definition retarget_pdata (formal : option N) (t : option memref) (d : option pdata) : option pdata :=
+  match formal, t, d with
+  | Some f, Some tm, Some (PName n) => if N.eqb n f then Some (PRef tm) else d
+  | _, _, _ => d
+  end.
+
+Definition spec_meas (c : mcal) (q : qubit) (t : option memref) : list instr :=
+  map (map_instr (qsub (meas_qubit_bindings c q)) (emap_m (retarget_memref (mc_target c) t))
+                 (retarget_memref (mc_target c) t) (retarget_pdata (mc_target c) t))
+      (mc_body c).
+
+Definition instantiate_spec (cs : cals) (i : instr) : option (list instr * calsrc) :=
+  match i with
+  | IGate nm ps qs =>
+      match gate_match (gcals cs) nm ps qs with
+      | Some c => Some (spec_gate c ps qs, CSGate (gc_name c) (gc_params c) (gc_qubits c))
+      | None => None
+      end
+  | IMeasure mn q t =>
+      match meas_match (mcals cs) mn q t with
+      | Some c => Some (spec_meas c q t, CSMeas (mc_name c) (mc_qubit c) (mc_target c))
+      | None => None
+      end
+  | _ => None
+  end.
+
+
 (** * Verified instance checkers for C17 (soundness in Proofs/CalExpandFullProofs.v) *)
 
 Definition qubit_is_var (q : qubit) : bool := match q with QV _ => true | QF _ => false end.
@@ -683,6 +758,17 @@ Definition chk_unmatched (cs : cals) (src out : list instr) : bool :=
 
 Definition chk_hoisted (out : list instr) : bool := forallb (fun i => negb (hoisted i)) out.
 
+(** For an instruction whose matching calibration's *specified* body needs no further expansion,
+    [Calibrations::expand] must return exactly that body (gate arguments paired with the
+    calibration's parameter variables by position, etc.); with no match it must return nothing. *)
+Definition chk_flat_spec (cs : cals) (i : instr) (o : option (list instr)) : bool :=
+  match instantiate_spec cs i with
+  | Some (body, _) =>
+      if forallb (fun j => negb (is_some (instantiate_spec cs j))) body
+      then option_eqb (list_eqb instr_eqb) o (Some body) else true
+  | None => option_eqb (list_eqb instr_eqb) o None
+  end.
+
 Definition region_eqb (a b : region) : bool :=
   N.eqb (fst a) (fst b) && N.eqb (fst (snd a)) (fst (snd b)) && N.eqb (snd (snd a)) (snd (snd b)).
 
@@ -723,6 +809,8 @@ Definition c17_verdict (c : c17_case) : N :=
         else if negb (chk_targets cs p (body p1)) then 4
         else if negb (chk_hoisted (body p1)) then 6
         else if negb (chk_unmatched cs (body p) (body p1)) then 7
+        else if negb (forallb2 (fun i o => match o with OOk r => chk_flat_spec cs i r | OErr _ => true end)
+                               (body p) singles) then 8
         else 0
     | OErr i, OErr j => if instr_eqb i j then 0 else 5
     | _, _ => 5
